@@ -25,6 +25,7 @@ func (m *Mutex) free() bool { return !m.held }
 func (m *Mutex) Lock() {
 	rt.Point(rt.OpLock, m, m.free)
 	m.held = true
+	rt.NoteLock(m)
 	rt.RaceAcquire(m)
 }
 
@@ -35,6 +36,7 @@ func (m *Mutex) TryLock() bool {
 		return false
 	}
 	m.held = true
+	rt.NoteLock(m)
 	rt.RaceAcquire(m)
 	return true
 }
@@ -52,6 +54,7 @@ func (m *Mutex) Unlock() {
 	}
 	rt.RaceRelease(m)
 	m.held = false
+	rt.NoteUnlock(m)
 	rt.NoteWrite()
 }
 
@@ -64,18 +67,21 @@ type RWMutex struct {
 func (m *RWMutex) Lock() {
 	rt.Point(rt.OpLock, m, func() bool { return !m.w && m.readers == 0 })
 	m.w = true
+	rt.NoteLock(m)
 	rt.RaceAcquire(m)
 }
 //go:norace
 func (m *RWMutex) Unlock() {
 	rt.RaceRelease(m)
 	m.w = false
+	rt.NoteUnlock(m)
 	rt.NoteWrite()
 }
 //go:norace
 func (m *RWMutex) RLock() {
-	rt.Point(rt.OpRLock, m, func() bool { return !m.w })
+	rt.Point(rt.OpRLock, rt.ReadOnly(m), func() bool { return !m.w })
 	m.readers++
+	rt.NoteLock(m)
 	rt.RaceAcquire(m)
 }
 //go:norace
@@ -84,6 +90,7 @@ func (m *RWMutex) RUnlock() {
 	if m.readers > 0 {
 		m.readers--
 	}
+	rt.NoteUnlock(m)
 	rt.NoteWrite()
 }
 //go:norace
@@ -102,7 +109,8 @@ type WaitGroup struct {
 
 //go:norace
 func (w *WaitGroup) Add(d int) {
-	rt.Point(rt.OpAtomic, w, nil)
+	// increments and decrements commute with each other; only Wait observes the counter
+	rt.Point(rt.OpAtomic, rt.Commutative(w), nil)
 	w.n += d
 	if w.n < 0 {
 		if rt.Cur != nil && rt.Cur.Teardown() {
@@ -117,7 +125,7 @@ func (w *WaitGroup) Add(d int) {
 func (w *WaitGroup) Done() { w.Add(-1) }
 //go:norace
 func (w *WaitGroup) Wait() {
-	rt.Point(rt.OpWait, w, func() bool { return w.n == 0 })
+	rt.Point(rt.OpWait, rt.ReadOnly(w), func() bool { return w.n == 0 })
 	rt.RaceAcquire(w)
 }
 
